@@ -29,7 +29,7 @@ ASSUMPTIONS = [
     "an empty string written to a workbook cell is read back as an empty cell (None)",
     "depth_m = depth_ft x 0.3048 is compared within 4 ulp",
 ]
-REQUIRED = ["json_exports", "json_integer_header_values", "json_text_curves", "json_nan_header_values", "json_object_curves_with_nan", "csv_exports", "csv_records_checked",
+REQUIRED = ["json_exports", "json_integer_header_values", "json_text_curves", "json_nan_header_values", "json_object_curves_with_nan", "json_objects_with_infinities_and_float32", "json_infinite_values", "csv_exports", "csv_records_checked",
             "excel_exports", "excel_text_curves", "df_roundtrips", "df_roundtrips_with_stale_suffixes", "exports_repeated_after_in_place_edits", "depth_unit_cases", "depth_conflict_cases", "depth_unrecognised_cases", "depth_cases_mnemonic_case_lower", "depth_cases_mnemonic_case_preserve"]
 SOFT_DEADLINE = {"quick": 100, "thorough": 1500}
 LEVEL_TEXT = "Exploration with independent readers of every export format as oracles over generated and corpus objects."
@@ -98,6 +98,21 @@ def make(ctx, case):
         spec["params"] = [p for p in spec["params"] if p[2] is not None]
         spec["via_text"] = {"read": {"mnemonic_case": rng.choice(["upper", "preserve"])}}
     las = lasobj.build(lasio, spec)
+    if case.get("kind") == "json" and case.get("seed", 0) % 3 == 0 and not spec.get("via_text"):
+        # floats JSON has no literal for, and floats of other widths: the text must stay strict JSON all the same
+        las.params.append(lasio.HeaderItem("PINF", "", float("inf"), "infinite value"))
+        las.params.append(lasio.HeaderItem("NINF", "", np.float64("-inf"), "infinite value"))
+        las.params.append(lasio.HeaderItem("F32", "", np.float32(2.5), "single precision value"))
+        las.params.append(lasio.HeaderItem("N32", "", np.float32("nan"), "single precision NaN"))
+        for c in list(las.curves)[1:2]:
+            d = np.asarray(c.data)
+            if d.dtype.kind == "f" and len(d) >= 2:
+                d = d.copy()
+                d[0], d[-1] = np.inf, -np.inf
+                c.data = d
+        if len(las.curves) >= 1 and np.asarray(las.curves[0].data).dtype.kind == "f":
+            las.append_curve("SNGL", np.asarray(las.curves[0].data, dtype=np.float32) / 3, descr="float32 curve")
+        ctx.count("json_objects_with_infinities_and_float32")
     if case.get("textcurve") and rng.random() < 0.6 and len(las.curves) and not spec.get("via_text"):
         # an object-dtype curve mixing text and NaN (what a DataFrame with a missing text value produces)
         n = len(las.curves[0].data)
@@ -203,6 +218,9 @@ def run_json(case, ctx, las):
             if cv[0] == "int":
                 ctx.count("json_integer_header_values")
                 ok = isinstance(g, int) and not isinstance(g, bool) and g == cv[1]
+            elif cv[0] == "num" and math.isinf(cv[1]):
+                ctx.count("json_infinite_values")
+                ok = g is None or (isinstance(g, str) and "inf" in g.lower())       # no JSON number exists for it: null (or its name), never a bare Infinity
             elif cv[0] == "num":
                 ok = isinstance(g, (int, float)) and not isinstance(g, bool) and float(g) == cv[1]
             elif cv[0] == "nan":
@@ -234,6 +252,8 @@ def run_json(case, ctx, las):
 
 
 def _same(a, b):
+    if isinstance(b, float) and math.isinf(b):
+        return a is None or (isinstance(a, str) and "inf" in a.lower())
     if a is None or b is None:
         return a is None and b is None
     if isinstance(b, str) or isinstance(a, str):
